@@ -7,6 +7,10 @@ RULE = ("valid streams of every method (sequential / Edgebreaker standard+valenc
         "DecodeBufferToGeometry / GetEncodedGeometryType / skip-transform, then truncations, byte / bit / 32-bit / varint patterns, multi-site, "
         "version and type rewrites, splices, insertions/deletions; each decode in a forked worker under ASan+UBSan with a watchdog; input "
         "buffer compared before/after; distinct = distinct (bytes, entry point)")
+def classify(line):
+    if line.startswith("! C18-kdtree-decoder-stacks-quadratic-in-declared-dimension"):
+        return "kdtree-decoder-stacks-quadratic-in-declared-dimension"
+    return None
 def run(ctx):
     decsearch.standard(ctx, __import__(__name__), ["C18"], RULE)
 def replay(ctx, path):
